@@ -250,6 +250,7 @@ def run(ctx: Ctx) -> None:
 
     partition_correspondence(ctx, built)
     log_roundtrip(ctx, built, 2500 if thorough else 600)
+    log_sessions(ctx)
 
 
 def partition_correspondence(ctx: Ctx, built: bool) -> None:
@@ -280,6 +281,47 @@ def partition_correspondence(ctx: Ctx, built: bool) -> None:
     bad = [i for i, (a, b) in enumerate(zip(rows, impl)) if [list(x) for x in a] != b]
     ctx.obligation("correspondence:line-partition", not bad and len(rows) == len(impl), "correspondence",
                    f"{len(bad)} of {len(impl)} differ; first: {lines[bad[0]]!r}" if bad or len(rows) != len(impl) else f"{len(impl)} annotated lines: frame / error / comment agree")
+
+
+def log_sessions(ctx: Ctx) -> None:
+    """A recorded session replays as the same message sequence -- also when packet logging is configured more than once in one process (a restart,
+    a reload): to the same file again, then to another file.  Each log holds exactly the packets accepted while it was the log, once, in order."""
+    from ramses_tx.logger import set_pkt_logging  # noqa: PLC0415
+    from ramses_tx.packet import PKT_LOGGER, Packet  # noqa: PLC0415
+
+    logging.disable(logging.NOTSET)
+    logging.getLogger().setLevel(logging.CRITICAL)
+    files = []
+    for _ in range(2):
+        fd, fn = tempfile.mkstemp(suffix=".log", prefix="verif_c02s_")
+        os.close(fd)
+        files.append(fn)
+    t0 = dt(2026, 3, 2, 8, 0, 0, 123456)
+    want = {files[0]: [], files[1]: []}
+    k = 0
+    try:
+        for fn, count in ((files[0], 4), (files[0], 3), (files[1], 3), (files[1], 2)):
+            set_pkt_logging(PKT_LOGGER, file_name=fn)
+            for _ in range(count):
+                k += 1
+                line = f"045  I --- 01:145038 --:------ 01:145038 30C9 003 {k % 12:02X}07D0"
+                Packet.from_port(t0 + td(seconds=k), line)
+                want[fn].append(line[4:])
+        for h in PKT_LOGGER.handlers:
+            h.flush()
+        got = {fn: [ln[31:].split(" #")[0].rstrip() for ln in open(fn).read().splitlines() if ln[27:30] == "045"] for fn in files}
+    finally:
+        for h in list(PKT_LOGGER.handlers):
+            PKT_LOGGER.removeHandler(h)
+            h.close()
+        for fn in files:
+            os.remove(fn)
+        logging.disable(logging.CRITICAL)
+    for i, fn in enumerate(files):
+        ctx.case(("log-session", i), True, "log:sessions-reconfigured")
+        if got[fn] != want[fn]:
+            ctx.violation("log-session-differs-after-reconfiguring", "after packet logging was configured again in the same process (same file, then another file) a log does not hold exactly the "
+                          "packets accepted while it was the log, once each, in order", {"log": "first" if i == 0 else "second", "recorded": want[fn], "in_the_log": got[fn]}, "history")
 
 
 def log_roundtrip(ctx: Ctx, built: bool, n: int) -> None:
